@@ -261,6 +261,7 @@ def run(pid, tier, seed, rule, assumptions):
 
 
 def validate(rep, recs, pid, tier, module, cfgfile):
+    os.makedirs(tlcrun.WORK, exist_ok=True)
     path = os.path.join(tlcrun.WORK, f"trace_{pid}_{tier}_{os.getpid()}.ndjson")
     with open(path, "w") as f:
         for r in recs:
